@@ -797,6 +797,8 @@ def run(ctx):
     from . import _premises
 
     _premises.tree_editor(ctx)
+    # the weights are differences of the two joint densities a holder carries: the fused evaluation must give both (C03.T1-T3)
+    _premises.density(ctx)
 
 
 _BS = "phyclone/smc/kernels/bootstrap.py"
